@@ -1,6 +1,8 @@
 package main
 
 import (
+	"golang.org/x/tools/go/ssa"
+	"go/types"
 	"strconv"
 	"encoding/json"
 	"fmt"
@@ -516,6 +518,12 @@ func runCheck(repo, verifDir string, opts CheckOpts, overlay map[string][]byte, 
 	for _, l := range knownLines {
 		fmt.Println(l)
 	}
+	// monitor audit: functions of a monitor's package that touch guarded fields but are not under contract
+	// for this property are outside the proof (the monitor rule assumes EVERY access is checked)
+	for _, u := range unverifiedAccessors(P, prop) {
+		warnings = append(warnings, "monitor audit: "+u)
+		trusted["not verified, touches monitor-guarded state: "+u] = true
+	}
 	var tb []string
 	for t := range trusted {
 		tb = append(tb, t)
@@ -656,6 +664,91 @@ func flattenAnd(t *Term) []*Term {
 	var out []*Term
 	for _, a := range t.Args {
 		out = append(out, flattenAnd(a)...)
+	}
+	return out
+}
+
+// unverifiedAccessors lists functions that read or write a field guarded by a monitor declared for prop
+// although they have no (non-assumed) contract for prop.
+func unverifiedAccessors(P *Program, prop string) []string {
+	var out []string
+	for _, m := range P.Specs.Monitors {
+		if m.Only != "" && m.Only != prop {
+			continue
+		}
+		// does the property touch this monitor's package at all?
+		relevant := false
+		for _, k := range funcsForProp(P.Specs, prop) {
+			if P.Specs.Funcs[k].PkgPath == m.PkgPath {
+				relevant = true
+			}
+		}
+		if !relevant {
+			continue
+		}
+		guard := map[string]bool{}
+		for _, g := range m.Guards {
+			if strings.HasPrefix(g, "[]") || strings.HasPrefix(g, "pkg:") {
+				continue
+			}
+			if strings.Contains(g, ".") {
+				guard[g] = true
+			} else {
+				guard[m.TypeName+"."+g] = true
+			}
+		}
+		var keys []string
+		for k := range P.Funcs {
+			keys = append(keys, k)
+		}
+		sort.Strings(keys)
+		for _, k := range keys {
+			fn := P.Funcs[k]
+			if funcPkgPath(fn) != m.PkgPath || strings.Contains(k, "$") {
+				continue
+			}
+			if cs := P.Specs.For(k, prop); cs != nil && !cs.Assumed {
+				listed := false
+				for _, p := range cs.Props {
+					if p == prop {
+						listed = true
+					}
+				}
+				if listed || cs.Inline {
+					continue
+				}
+			}
+			if fn.Name() == "init" {
+				continue
+			}
+			touched := ""
+			for _, b := range fn.Blocks {
+				for _, in := range b.Instrs {
+					fa, ok := in.(*ssa.FieldAddr)
+					if !ok {
+						continue
+					}
+					pt, ok := fa.X.Type().Underlying().(*types.Pointer)
+					if !ok {
+						continue
+					}
+					n, ok := types.Unalias(pt.Elem()).(*types.Named)
+					if !ok {
+						continue
+					}
+					st, ok := n.Underlying().(*types.Struct)
+					if !ok {
+						continue
+					}
+					if guard[n.Obj().Name()+"."+st.Field(fa.Field).Name()] {
+						touched = n.Obj().Name() + "." + st.Field(fa.Field).Name()
+					}
+				}
+			}
+			if touched != "" {
+				out = append(out, shortKey(k)+" ("+touched+")")
+			}
+		}
 	}
 	return out
 }
